@@ -314,3 +314,25 @@ func init() {
 		return nil, false
 	})
 }
+
+func init() {
+	// binary.LittleEndian.AppendUint64(b, v): fresh bytes whose contents are those of b followed by the 8-byte
+	// little-endian encoding of v (binary.le64_: a function of v, 8 long; trusted: encoding/binary)
+	for _, n := range []string{"(encoding/binary.littleEndian).AppendUint64"} {
+		reg(n, func(fr *Frame, st *State, c *ssa.CallCommon, a []*Term) ([]*Term, bool) {
+			ex := fr.ex
+			f := ex.f
+			if len(a) != 3 {
+				return nil, false
+			}
+			enc := f.App("binary.le64_", SStr, a[2])
+			ex.assume(st, f.Eq(ex.tm.StrLen(enc), f.Int(8)))
+			content := ex.strConcat(ex.bytesToStr(st, a[1]), enc)
+			return []*Term{ex.newBytesOf(st, content)}, true
+		})
+	}
+	// le64(v): the 8 bytes binary.LittleEndian puts for v
+	extraSpecFuncs["le64"] = func(ctx *EvalCtx, args []CV) CV {
+		return CV{ctx.ex.f.App("binary.le64_", SStr, args[0].t), types.Typ[types.String]}
+	}
+}
